@@ -48,11 +48,14 @@ ApplyEdit(m, s) ==
     [] s.op = "setdir" -> [m EXCEPT !.dir = s.dir]
     \* model.add_reactions([reverse copy of reaction r]): the stoichiometry of r negated, bounds (0, ub), no objective
     \* term -- a structural edit (it closes a two-reaction cycle with r when r is internal)
+    \* every coefficient of reaction r is doubled: reaction.add_metabolites({<metabolite ID as text>: coefficient ...})
+    \* for each of its metabolites (combine=True) -- the keys are identifiers, not objects
+    [] s.op = "dblcol" -> [m EXCEPT !.S[s.r] = [j \in 1..Len(m.mets) |-> 2 * m.S[s.r][j]]]
     [] s.op = "addrxn" -> [m EXCEPT !.rxns = Append(@, "R" \o ToString(Len(m.rxns) + 1)),
                                     !.S = Append(@, [j \in 1..Len(m.mets) |-> 0 - m.S[s.r][j]]),
                                     !.lb = Append(@, 0), !.ub = Append(@, s.ub), !.c = Append(@, 0)]
     [] OTHER -> m
-IsEdit(s) == s.op \in {"setbounds", "setobj", "setdir", "setobjdict", "addrxn"}
+IsEdit(s) == s.op \in {"setbounds", "setobj", "setdir", "setobjdict", "addrxn", "dblcol"}
 LoggedModel(m, lg) == [m EXCEPT !.lb = lg.lb, !.ub = lg.ub, !.c = lg.c, !.dir = lg.dir]
 
 If(b, x) == IF b THEN {x} ELSE {}
@@ -482,7 +485,7 @@ Next ==
      /\ Undecided(ev, A) => PrintT(ToJson([verdict |-> "UNDECIDED", tid |-> Traces[tid].tid, l |-> l + 1, op |-> ev.step.op,
                                            why |-> UndecidedWhy(ev, A)]))
      \* continue from the logged state
-     /\ cur' = LoggedModel(IF ev.step.op = "addrxn" THEN ApplyEdit(cur, ev.step) ELSE cur, ev.model)
+     /\ cur' = LoggedModel(IF ev.step.op \in {"addrxn", "dblcol"} THEN ApplyEdit(cur, ev.step) ELSE cur, ev.model)
      /\ sols' = IF ev.step.op = "optimize" /\ ev.obs.raises = "none" THEN Append(ev.snaps, ev.obs.sol) ELSE ev.snaps
      /\ last' = CASE ev.step.op = "optimize" ->
                        [valid |-> TRUE, Me |-> [cur EXCEPT !.dir = EffDir(cur, ev.step)],
